@@ -132,6 +132,8 @@ def _emit_logs(task):
         if kind == 'F':
             sys.stdout.flush()
             continue
+        if kind == 'N':         # (not an output directive: run() returns None)
+            continue
         for i in range(num):
             msg = f'msg:{task.tid}:{kind}:{i}'
             _verif.emit('lemit', t=task.tid, m=msg, k=kind)
@@ -180,6 +182,8 @@ def run_body(task):
         if task.beh.split()[0] == 'raise' or task.tid in ((ctx or {}).get('failnow') or ()):
             raise RuntimeError(f'boom {task.tid}')
         value = [task.tid, (ctx or {}).get('epoch', -1), vals]
+        if 'N' in task.beh.split()[1:]:
+            value = None            # a task whose run() legitimately returns None
         if os.environ.get('LV_RICH'):
             # a result that carries task objects (the task itself and its dependencies), as a result may
             value = Rich(value)
